@@ -221,7 +221,7 @@ Definition meek_first_prefs (s : est) : est :=
     match erank eb with
     | [] => set_crash s AttributeError
     | top :: _ =>
-      match floordivv A V1 (of_int A (nlen top)) with
+      match divv A V1 (of_int A (nlen top)) with
       | Raise e => set_crash s e
       | Ok q => let v := mulv A q (emult eb) in fold_left (fun s i => add_vote A i v s) top s
       end
